@@ -224,7 +224,7 @@ func (p *printer) cmd(c *ast.Cmd) {
 
 func (p *printer) simpleCmd(x *ast.SimpleCmd, redirs []*ast.Redir) (err error) {
 	var order [3]string
-	if p.cfg.Redir&Before == 0 {
+	if p.cfg.Redir&Before == 0 && !(len(x.Assigns) == 0 && len(redirs) != 0 && reserved(x.Args)) {
 		order[0] = "assign"
 		order[1] = "args"
 		order[2] = "redir"
@@ -269,6 +269,22 @@ func (p *printer) simpleCmd(x *ast.SimpleCmd, redirs []*ast.Redir) (err error) {
 		}
 	}
 	return
+}
+
+// reserved reports whether the first word of args would be taken for a
+// reserved word at the beginning of a command; it is a command name
+// only because a redirection precedes it.
+func reserved(args []ast.Word) bool {
+	if len(args) == 0 || len(args[0]) != 1 {
+		return false
+	}
+	if w, ok := args[0][0].(*ast.Lit); ok {
+		switch w.Value {
+		case "!", "{", "}", "for", "case", "esac", "in", "if", "elif", "then", "else", "fi", "while", "until", "do", "done":
+			return true
+		}
+	}
+	return false
 }
 
 func (p *printer) redir(r *ast.Redir) {
